@@ -79,7 +79,8 @@ def parse_printed(out):
 
 
 def run_generator(workdir, consts, module='FM', defaults=True, invariants=(), emit=True, simulate=None,
-                  seed=0, extra_defs='', constraint=None, workers=1, heap='6g', timeout=3600):
+                  seed=0, extra_defs='', constraint=None, workers=1, heap='6g', timeout=3600,
+                  spec_name='Spec', emit_name='Emit', emit_all=True):
     """Explore the builder state machine; -> (cases, stats dict)."""
     os.makedirs(workdir, exist_ok=True)
     cs = dict(GEN_DEFAULTS) if defaults else {}
@@ -92,7 +93,7 @@ def run_generator(workdir, consts, module='FM', defaults=True, invariants=(), em
     lines.append('====')
     with open(os.path.join(workdir, 'MC.tla'), 'w') as f:
         f.write('\n'.join(lines) + '\n')
-    cfg = ['SPECIFICATION Spec', 'CONSTANTS']
+    cfg = ['SPECIFICATION ' + spec_name, 'CONSTANTS']
     cfg += ['  %s <- c_%s' % (k, k) for k in cs]
     cfg += ['CONSTRAINT LevelBound']
     if constraint:
@@ -100,7 +101,7 @@ def run_generator(workdir, consts, module='FM', defaults=True, invariants=(), em
     for inv in invariants:
         cfg.append('INVARIANT ' + inv)
     if emit:
-        cfg.append('INVARIANT Emit')
+        cfg.append('INVARIANT ' + emit_name)
     cfg.append('CHECK_DEADLOCK FALSE')
     with open(os.path.join(workdir, 'MC.cfg'), 'w') as f:
         f.write('\n'.join(cfg) + '\n')
@@ -132,7 +133,7 @@ def run_generator(workdir, consts, module='FM', defaults=True, invariants=(), em
                 seen.add(key)
                 uniq.append(c)
         cases = uniq
-    elif emit and len(cases) != distinct:
+    elif emit and emit_all and len(cases) != distinct:
         raise TLCError('generator printed %d cases for %d distinct states' % (len(cases), distinct))
     return cases, {'generated': gen, 'distinct': distinct, 'wall_s': round(wall, 2),
                    'consts': {k: (sorted(v) if isinstance(v, (set, frozenset)) else v)
